@@ -5,6 +5,7 @@ CONSTANTS
   RPB = 1
   NSigs = 1
   NHours = 1
+  NKeys = 1
   MaxBuf = 1
   QCap = 1
   NWorkers = 1
